@@ -127,6 +127,9 @@ yprp_stmt(struct lys_ypr_ctx *pctx, struct lysp_stmt *stmt)
     }
 }
 
+static void yprp_extension_instances(struct lys_ypr_ctx *pctx, enum ly_stmt substmt, uint8_t substmt_index,
+        struct lysp_ext_instance *exts, int8_t *flag);
+
 static void
 yprp_extension_instance(struct lys_ypr_ctx *pctx, enum ly_stmt substmt, uint8_t substmt_index,
         struct lysp_ext_instance *ext, int8_t *flag)
@@ -156,6 +159,9 @@ yprp_extension_instance(struct lys_ypr_ctx *pctx, enum ly_stmt substmt, uint8_t 
         lyxml_dump_text(pctx->out, ext->argument, 0);
         ly_print_(pctx->out, "</%.*s:%s>\n", (int)prefix_len, prefix, ext->def->argname);
     }
+    /* nested extension instances */
+    yprp_extension_instances(pctx, LY_STMT_EXTENSION_INSTANCE, 0, ext->exts, &inner_flag);
+
     LY_LIST_FOR(ext->child, stmt) {
         if (stmt->flags & (LYS_YIN_ATTR | LYS_YIN_ARGUMENT)) {
             continue;
